@@ -457,7 +457,7 @@ class LifecycleStream(core.Stream):
 
 def race_predicate(ops, out):
     if out and out[0].startswith("CRASH"):
-        if "DATA RACE" in out[0]:
+        if "DATA RACE" in out[0] or "data race" in out[0]:
             return "the Go race detector reported a data race: " + out[0][:600]
         return "implementation crashed or hung: " + out[0][:300]
     return predicate(ops, out)
